@@ -2024,6 +2024,108 @@ def search_type_text(ck: Ck) -> None:
             ck.violation(key, what, {'kind': 'type_text', 'lines': [list(x) for x in small], 'text': type_text_fgd(small)})
 
 
+# =============================================================================================== blocks of the binary database
+def impl_build_blocks(sizes: list[int], pairs: list[tuple[int, int]]) -> list[list[int]]:
+    """The real _engine_db.build_blocks on entities 0..n-1 (it only uses them as dictionary keys): the blocks in the order returned."""
+    import srctools._engine_db as E
+    n = len(sizes)
+    with contextlib.redirect_stdout(io.StringIO()):
+        out = E.build_blocks(list(range(n)), {i: {f's{i}'} for i in range(n)}, dict(enumerate(sizes)), [(a, b, 0) for a, b in pairs])
+    return [list(ents) for ents, _ in out]
+
+
+def gen_block_case(rng: random.Random, max_size: int) -> tuple[list[int], list[tuple[int, int]]]:
+    """Sizes on the scale of MAX_BLOCK_SIZE (blocks fill with 2-8 entities) and a random list of overlapping pairs: some entities
+    in no pair at all, pairs that merge blocks, pairs refused because a block is full."""
+    n = rng.randint(1, 14)
+    scale = rng.choice([max_size // 2, max_size // 3, max_size // 5, max_size // 9, max_size + 1])
+    sizes = [rng.randint(max(1, scale // 2), scale) for _ in range(n)]
+    in_pairs = [i for i in range(n) if rng.random() < rng.choice([0.4, 0.7, 0.95])]
+    pairs = []
+    for _ in range(rng.randint(0, 2 * n)):
+        if len(in_pairs) >= 2:
+            a, b = rng.sample(in_pairs, 2)
+            pairs.append((a, b))
+    return sizes, pairs
+
+
+def check_blocks(sizes: list[int], pairs: list[tuple[int, int]]) -> Optional[str]:
+    got = impl_build_blocks(sizes, pairs)
+    flat = sorted(e for b in got for e in b)
+    if flat != list(range(len(sizes))):
+        lost = sorted(set(range(len(sizes))) - set(flat))
+        twice = sorted({e for e in flat if flat.count(e) > 1})
+        return f'build_blocks: entities {lost} are in no block, {twice} in more than one (blocks {got})'
+    if any(not b for b in got):
+        return f'build_blocks returns a block without entities: {got}'
+    return None
+
+
+def corr_blocks(ck: Ck) -> None:
+    """SM/FgdBlocks.v with the configuration read from the source against the real build_blocks: generated sizes and pair lists ->
+    the same blocks with the same entities in the same order (compared as sorted lists of blocks: the final sort by length is stable
+    but not modelled); the leftovers are given to the model in the iteration order of a Python set built like `todo`."""
+    import srctools._engine_db as E
+    rng = ck.rng
+    max_size = int(E.MAX_BLOCK_SIZE)
+    cases = [([5, 5, 5], [(0, 1)]), ([max_size] * 3, []), ([1], []), ([max_size // 2] * 6, [(0, 1), (2, 3), (1, 2), (4, 5)])]
+    for _ in range(ck.budget(120, 1500)):
+        cases.append(gen_block_case(rng, max_size))
+    rows, want = [], []
+    for sizes, pairs in cases:
+        got = impl_build_blocks(sizes, pairs)
+        order_all = list(set(range(len(sizes))))     # the iteration order of a set built like `todo`; the model keeps the unplaced ones
+        rows.append('(%s, %s, %s)' % (coq_list(str(x) for x in sizes), coq_list('(%d, %d)' % p for p in pairs), coq_list(str(x) for x in order_all)))
+        want.append(sorted(got))
+        ck.count('corr_blocks')
+        ck.hist('blocks_shape', f'{min(len(got), 4)}+ blocks' if len(got) >= 4 else f'{len(got)} blocks')
+        if len(got) > 1 and pairs:
+            ck.seen(('blocks', tuple(sizes), tuple(pairs)))
+    expr = ('map (fun c : list N * list (N * N) * list N => let \'(sizes, pairs, ord) := c in let sz := fun e => nth (N.to_nat e) sizes 0 in '
+            'let bl := pair_loop gen_bcfg sz max_block_size pairs in '
+            'build_with gen_bcfg sz max_block_size pairs (filter (fun e => negb (memN e (List.concat bl))) ord)) ' + coq_list(rows))
+    vals = ck.coq_eval(IMPORTS + ['SV.SM.FgdBlocks'], [expr], name='blocks', preamble=PRE, timeout=600)
+    if vals is None:
+        ck.obligation('correspondence:binary_block_builder', False, 'model could not be evaluated')
+        ck.tie_broken.append('correspondence build_blocks: model evaluation failed')
+        return
+    model = parse_coq_nested(vals[0])
+    bad = [i for i, (m, w) in enumerate(zip(model, want)) if sorted(m) != w]
+    ck.obligation('correspondence:binary_block_builder', not bad and len(model) == len(want),
+                  f'{len(want)} generated (sizes, overlapping pairs): blocks of the real build_blocks == build_with gen_bcfg (SM/FgdBlocks.v, configuration read '
+                  f'from the source), entities in the same order inside every block: {len(bad)} disagreements')
+    if bad:
+        ck.tie_broken.append('correspondence build_blocks (SM/FgdBlocks.v vs _engine_db.py)')
+        ck.extra['blocks_disagreement'] = {'sizes': cases[bad[0]][0], 'pairs': cases[bad[0]][1], 'impl': want[bad[0]], 'model': sorted(model[bad[0]])}
+
+
+def search_blocks(ck: Ck) -> None:
+    """The property of the block builder on the real build_blocks: every entity in exactly one block, no empty block."""
+    import srctools._engine_db as E
+    rng = ck.rng
+    max_size = int(E.MAX_BLOCK_SIZE)
+    for _ in range(ck.budget(400, 6000)):
+        sizes, pairs = gen_block_case(rng, max_size)
+        ck.count('search_blocks')
+        what = check_blocks(sizes, pairs)
+        if what is None:
+            continue
+        # shrink: drop pairs, then trailing entities
+        key = 'binary-blocks-empty-block' if 'without entities' in what else 'binary-blocks-entity-not-in-exactly-one-block'
+        cls = lambda w: w is not None and (('without entities' in w) == (key == 'binary-blocks-empty-block'))   # noqa: E731
+        changed = True
+        while changed:
+            changed = False
+            for i in range(len(pairs)):
+                cand = pairs[:i] + pairs[i + 1:]
+                if cls(check_blocks(sizes, cand)):
+                    pairs, changed = cand, True
+                    break
+            if not changed and len(sizes) > 1 and all(a < len(sizes) - 1 and b < len(sizes) - 1 for a, b in pairs) and cls(check_blocks(sizes[:-1], pairs)):
+                sizes, changed = sizes[:-1], True
+        ck.violation(key, check_blocks(sizes, pairs) or what, {'kind': 'blocks', 'sizes': sizes, 'pairs': [list(p) for p in pairs]})
+
+
 # =============================================================================================== canonical definitions
 def canon_attr(v: Any, io_kind: bool, choice_norm: bool = True) -> tuple:
     from srctools.fgd import VALUE_TO_IO_DECAY, KVDef, ValueTypes
@@ -2909,6 +3011,10 @@ INSTANCE_OBLIGATIONS = {
     'text_line_cfg_ok_is_these': 'Bool.eqb (line_cfg_ok gen_line_cfg) ((colons_before_desc_without_default gen_line_cfg =? 2)%nat '
                                  '&& bool_default_filled gen_line_cfg && res_block_if_defined gen_line_cfg)',
     'text_empty_resources_need_the_block': 'empty_resources_need_block',
+    'binary_blocks_first_overflow_block_stays_listed': 'blocks_cfg_ok',
+    'binary_blocks_empty_blocks_dropped_at_the_end': 'blocks_empty_dropped_at_end',
+    'binary_blocks_serialise_writes_every_entity_of_every_block': 'blocks_all_written',
+    'binary_blocks_early_drop_is_refuted': 'early_drop_breaks',
     'text_kv_type_program_is_the_model': 'kv_type_prog_ok',
     'text_io_type_program_is_the_model': 'io_type_prog_ok',
     'text_kv_unknown_type_kept_verbatim': 'kv_unknown_type_kept_verbatim',
@@ -3036,6 +3142,7 @@ def search_groups(data: bytes, tb: dict) -> list[list[tuple[str, Callable[..., A
         [('search_generated', search_generated, ()),
          ('search_binary', search_binary, (data,)),
          ('search_binary_small', search_binary_small, (tb['names'],)),
+         ('search_blocks', search_blocks, ()),
          ('search_lazy', search_lazy, (data, tb))],
     ]
 
@@ -3262,7 +3369,8 @@ def run(ck: Ck) -> None:
             [('corr_binary_records', corr_binary_records, (data, tb)),
              ('corr_head', corr_head, ())],
             [('corr_strdict', corr_strdict, ()),
-             ('corr_lazy', corr_lazy, (data, tb, via))],
+             ('corr_lazy', corr_lazy, (data, tb, via)),
+             ('corr_blocks', corr_blocks, ())],
         ], searches=False)
     join_searches()
     if (join() or ck.tie_broken) and not first_escalated:
@@ -3303,7 +3411,7 @@ def run(ck: Ck) -> None:
         ck.explain('correspondence:text_lines_')
         ck.explain('correspondence:text_header_')
     # a translator that failed closed at a site is explained by a concrete violation of the mechanism that site belongs to
-    site_of = (('engine_dbase', 'lazy-multi-db'), ('engine_def', 'lazy-multi-db'), ('add_engine_database', 'lazy-multi-db'), ('EngineDB', 'lazy-'), ('_parse_block', 'lazy-'), ('get_fgd', 'lazy-'), ('serialise', 'binary-'), ('BinStrDict', 'binary-'),
+    site_of = (('engine_dbase', 'lazy-multi-db'), ('engine_def', 'lazy-multi-db'), ('add_engine_database', 'lazy-multi-db'), ('EngineDB', 'lazy-'), ('_parse_block', 'lazy-'), ('get_fgd', 'lazy-'), ('serialise', 'binary-'), ('build_blocks', 'binary-'), ('BinStrDict', 'binary-'),
                ('_write_longstring', 'longstring:'), ('_fgd_escape', 'longstring:'), ('ESCAPE', 'longstring:'),
                ('KVDef.export', 'generated-fgd'), ('IODef.export', 'generated-fgd'), ('EntityDef.export', 'generated-fgd'),
                ('KVDef._parse', 'type-text-'), ('IODef._parse', 'type-text-'), ('VALUE_TYPE_LOOKUP', 'type-text-'), ('ValueTypes', 'type-text-'),
@@ -3375,6 +3483,12 @@ def replay(data: dict) -> int:
         finally:
             signal.alarm(0)
         return 1 if rck.found else 0
+    if kind == 'blocks':
+        print('entity sizes:', r['sizes'], ' overlapping pairs:', r['pairs'])
+        print('blocks:', impl_build_blocks(r['sizes'], [tuple(p) for p in r['pairs']]))
+        w = check_blocks(r['sizes'], [tuple(p) for p in r['pairs']])
+        print('VIOLATION ' + w if w else 'every entity is in exactly one block')
+        return 1 if w else 0
     if kind == 'type_text':
         print(r['text'])
         found_t = check_type_text([tuple(x) for x in r['lines']])
